@@ -523,55 +523,53 @@ func CanonicalIsomorphAllocated(n, m int, neighbours [][]int, op *CanonicalOrder
 	currentBest := storage.currentBest[:0]
 
 	//Handle the special case where m = 0.
-	//TODO: Check if this is necessary.
+	//Every bin of the partition is an orbit and the automorphism group is the product of the symmetric groups on the bins.
 	if m == 0 {
-		//Return the identity permutation.
+		//The bins are sorted so this is the identity permutation if there is only one bin.
 		perm := storage.currentBestPerm[:n]
-		for i := 0; i < n; i++ {
-			perm[i] = i
-		}
-		//Every vertex is in the same orbit.
+		copy(perm, op.order)
+
 		ds := storage.firstLeafOrbits[:n]
-		ds[0] = -2
-		for i := 1; i < n; i++ {
-			ds[i] = 0
-		}
+		binStart := 0
+		for _, binEnd := range op.binDividers {
+			bin := op.order[binStart:binEnd]
+			binStart = binEnd
+			if len(bin) == 1 {
+				ds[bin[0]] = -1
+				continue
+			}
+			ds[bin[0]] = -2
+			for _, v := range bin[1:] {
+				ds[v] = bin[0]
+			}
 
-		if n == 1 {
-			return perm, ds, storage.generators[:0]
+			//The symmetric group on the bin is generated by a cycle through the bin and, if there are more than 2 elements, the transposition of the first two.
+			numGens := 1
+			if len(bin) > 2 {
+				numGens = 2
+			}
+			for i := 0; i < numGens; i++ {
+				generators = generators[:len(generators)+1]
+				tmp := generators[len(generators)-1]
+				if cap(tmp) < n {
+					tmp = make([]int, n)
+				} else {
+					tmp = tmp[:n]
+				}
+				for j := range tmp {
+					tmp[j] = j
+				}
+				if i == 0 {
+					for j := range bin {
+						tmp[bin[j]] = bin[(j+1)%len(bin)]
+					}
+				} else {
+					tmp[bin[0]] = bin[1]
+					tmp[bin[1]] = bin[0]
+				}
+				generators[len(generators)-1] = tmp
+			}
 		}
-
-		generators := storage.generators[:1]
-		tmp := generators[0]
-		if cap(tmp) < n {
-			tmp = make([]int, n)
-		} else {
-			tmp = tmp[:n]
-		}
-		for i := range tmp {
-			tmp[i] = i + 1
-		}
-		tmp[n-1] = 0
-		generators[0] = tmp
-
-		if n == 2 {
-			return perm, ds, generators
-		}
-
-		generators = generators[:2]
-
-		tmp = generators[1]
-		if cap(tmp) < n {
-			tmp = make([]int, n)
-		} else {
-			tmp = tmp[:n]
-		}
-		for i := range tmp {
-			tmp[i] = i
-		}
-		tmp[0] = 1
-		tmp[1] = 0
-		generators[1] = tmp
 		return perm, ds, generators
 	}
 
